@@ -345,6 +345,19 @@ func c07case(c *engine.Ctx, env *zygo.Zlisp, a, b num) {
 			c.Violation("compare", "C07/compare/"+op+"/"+pair, w, fmt.Sprintf("(%s %s %s) gave %s, exact order says %v", op, a.sexp().SexpString(nil), b.sexp().SexpString(nil), r, want))
 		}
 	}
+	// one object on both sides (an alias, a parameter used twice): the answer is the same as for two equal objects
+	if judged && a.String() == b.String() {
+		for _, op := range c07cmpOps {
+			want := (cm == 0 && (op == "==" || op == "<=" || op == ">=")) || (cm != 0 && op == "!=")
+			for _, src := range []string{"(" + op + " aa aa)", "((fn [p] (" + op + " p p)) aa)", "(let [cc aa] (" + op + " cc aa))"} {
+				r := zy.Eval(env, src)
+				out.WriteString(r.Short() + "|")
+				if r.Short() != strconv.FormatBool(want) {
+					c.Violation("compare-same-object", "C07/compare-same-object/"+op+"/"+pair, w, fmt.Sprintf("%s with aa = %s gave %s, exact order says %v", src, a.sexp().SexpString(nil), r, want))
+				}
+			}
+		}
+	}
 	// hash lookup keyed by the first operand (Compare == 0 decides)
 	if a.kind == b.kind && (a.kind == 'I' || a.kind == 'C') {
 		zy.Eval(env, "(def hh (hash))")
@@ -398,7 +411,7 @@ func init() {
 	engine.Register(&engine.Check{
 		ID:    "C07",
 		Level: "exploration",
-		Rule: "all ordered pairs over a boundary grid of int64/uint64/char/float64 values (bound as Go values with AddGlobal) x 6 comparison operators, hash lookup, and + - * / mod; " +
+		Rule: "all ordered pairs over a boundary grid of int64/uint64/char/float64 values (bound as Go values with AddGlobal) x 6 comparison operators (for a value against itself also with one object on both sides: alias, parameter used twice), hash lookup, and + - * / mod; " +
 			"oracle computed with math/big and Go fixed-width arithmetic; distinct_nontrivial = distinct result vectors of a pair",
 		Assumptions: []string{
 			"not specified by the property and therefore only checked for 'no panic': int64 vs uint64, int vs char and uint64 vs float comparisons; arithmetic between char and integers; mod with a float operand",
